@@ -32,6 +32,11 @@ Theorem C16_dra_total_never_negative : forall l,
 Proof. exact dra_total_never_negative. Qed.
 Print Assumptions C16_dra_total_never_negative.
 
+(* conversion to a Kubernetes quantity and back is the identity on integer amounts *)
+Theorem C16_quantity_roundtrip : forall x, float_of_quantity (quantity_of_float x) = x.
+Proof. exact (fun x => eq_refl). Qed.
+Print Assumptions C16_quantity_roundtrip.
+
 (* --- group laws --- *)
 Theorem C16_add_sub_pointwise : forall r x,
   cpu (sub (add r x) x) = cpu r /\ mem (sub (add r x) x) = mem r /\
